@@ -85,6 +85,11 @@ class ModelNode(renew.Mold):
         raise NotImplementedError("To be overridden in %s class." % self.__class__.__name__)
 
 
+def _symbols_of(expression):
+    """ Names used in a constant expression given as text (numbers contribute none). """
+    return re.findall(r"(?<![0-9A-Za-z_])[A-Za-z_][A-Za-z0-9_]*", str(expression))
+
+
 class Constant(ModelNode):
     _str_pattern = "const {s.name} = {s.value!r};"
     __slots__ = ()
@@ -99,8 +104,7 @@ class Constant(ModelNode):
                 return None
 
     def dependencies(self):
-        for symbol in re.findall(r"(?<![0-9A-Za-z_])[A-Za-z_][A-Za-z0-9_]*", self.value):
-            yield symbol
+        return _symbols_of(self.value)
 
 
 class EnumMember(Constant):
@@ -169,6 +173,11 @@ class StructMember(Typedef):
     __slots__ = "bound", "size", "greedy", "optional", "numeric_size", "padding"
     _eq_attributes = "name", "_value", "bound", "size", "greedy", "optional", "definition"
 
+    def dependencies(self):
+        yield self.type_name
+        for symbol in _symbols_of(self.size or ""):
+            yield symbol
+
     def __init__(self, name, type_name, definition=None, bound=None, size=None, greedy=False, optional=False,
                  docstring=None):
         assert sum((bool(bound or size), greedy, optional)) <= 1, "Over-constraint"
@@ -228,6 +237,11 @@ class UnionMember(Typedef):
     def __init__(self, name, type_name, discriminator, definition=None, docstring=None):
         super(UnionMember, self).__init__(name, type_name, definition, docstring)
         self.discriminator = discriminator
+
+    def dependencies(self):
+        yield self.type_name
+        for symbol in _symbols_of(self.discriminator):
+            yield symbol
 
 
 """ Composite kinds """
